@@ -64,8 +64,8 @@ def check_columns(inp, out, what):
         core.check(fa[0] == fb[0], "%s: record order/name changed: %s -> %s", what, fa[0], fb[0])
         for c in (1, 2, 3, 9, 10, 11):
             core.check(fa[c] == fb[c], "%s: column %d changed %s -> %s in %s", what, c + 1, fa[c], fb[c], fa[0])
-        ta = [t for t in fa[12:] if not t.startswith("cg:Z:")]
-        tb = [t for t in fb[12:] if not t.startswith("cg:Z:")]
+        ta = models.masked_fields(fa[12:], drop=())
+        tb = models.masked_fields(fb[12:], drop=())
         core.check(ta == tb, "%s: optional fields changed %s -> %s in %s", what, ta, tb, fa[0])
 
 
